@@ -402,6 +402,18 @@ func delimited(f *fdp, fd *fldp) bool {
 	return f.GetOptions().GetFeatures().GetMessageEncoding() == descriptorpb.FeatureSet_DELIMITED
 }
 
+// legacyRequired reports whether an editions field resolves field_presence = LEGACY_REQUIRED
+// (settable on the field and on the file).
+func legacyRequired(f *fdp, fd *fldp) bool {
+	if syntaxOf(f) != "editions" {
+		return false
+	}
+	if fs := fd.GetOptions().GetFeatures(); fs != nil && fs.FieldPresence != nil {
+		return fs.GetFieldPresence() == descriptorpb.FeatureSet_LEGACY_REQUIRED
+	}
+	return f.GetOptions().GetFeatures().GetFieldPresence() == descriptorpb.FeatureSet_LEGACY_REQUIRED
+}
+
 func realOneofMember(r fieldRef) bool { return r.f.OneofIndex != nil && !r.f.GetProto3Optional() }
 
 func fieldFeatures(f *fldp) *descriptorpb.FeatureSet {
